@@ -79,6 +79,12 @@ func (m *CPU) Run(app risc.Application) (int, error) {
 		m.writeUnit.cycle(m.ctx, m.writeBus)
 
 		if ret {
+			// Complete the instructions older than ret: everything still on the
+			// write bus has to reach the write unit
+			for !m.writeBus.IsEmpty() {
+				cycle++
+				m.writeUnit.cycle(m.ctx, m.writeBus)
+			}
 			break
 		}
 		if flush {
